@@ -18,13 +18,20 @@ for d in sorted(glob.glob(os.path.join(VERIF, 'seeded', '*'))):
     def verdict(r):
         if not r:
             return 'not run'
+        if r.get('applies') is False:
+            prev = [x for x in runs if x.get('applies') is not False]
+            return 'patch no longer applies after a repair of the same lines' + (' (before: %s)' % verdict(prev[-1]) if prev else '')
+        if r.get('demo_exit_with_change') == 0:
+            return 'no longer breaks the property on the repaired source (demonstration passes)' + (
+                '; check: ' + ('reports the changed source' if r.get('caught') else 'quiet'))
         if not r.get('caught'):
             return 'missed'
         return 'caught' if r.get('with_concrete_replay') else 'caught (no concrete input)'
     summ = (m.get('summary') or '').replace('|', '/').replace('\n', ' ')
     if len(summ) > 150:
         summ = summ[:147] + '...'
-    sigs = ', '.join('`%s`' % x for x in (last.get('signatures') or [])[:3])
+    lastsig = [x for x in runs if x.get('signatures')]
+    sigs = ', '.join('`%s`' % x for x in ((lastsig[-1]['signatures'] if lastsig else []))[:3])
     rows.append('| %s | %s | %s | %s | %s |' % (os.path.basename(d), summ, verdict(first), verdict(last) if len(runs) > 1 else '', sigs))
 import sys
 out = []
